@@ -60,8 +60,9 @@ PARAMS = [
 BAD = [("xa", "i", "0", "-", "-"), ("xb", "f", "-", "-", "-"), ("xc", "i", "0", "10", "x"), ("xd", "f", "0", "1", "n")]
 VALS = [0.0, 1.0, 0.5, 0.25, 0.75, 1 / 127.0, 64 / 127.0, 126 / 127.0, 0.1, 0.9, 0.499, 0.501, -0.5, 1.5, 2.0, -1.0,
         100.0, -100.0, 1e-6, 0.333333, 0.666667]
-GAINS = [100.0, 100.0, 50.0, 200.0, 0.0, -100.0, 1.0, 33.3, 150.0, -50.0, 1000.0]
-OFFS = [0.0, 0.0, 10.0, -10.0, 50.0, -50.0, 100.0, 25.5, -100.0]
+GAINS = [100.0, 100.0, 50.0, 200.0, 0.0, -100.0, 1.0, 33.3, 150.0, -50.0, 1000.0, 3e38, -3e38, 1e30]
+OFFS = [0.0, 0.0, 10.0, -10.0, 50.0, -50.0, 100.0, 25.5, -100.0, 3e38, -1e36]
+WILD = [float("inf"), float("-inf"), float("nan"), 1e38, -1e38, 3e38]
 CCS = [1, 7, 10, 74]
 
 def gen_case(rng, dist):
@@ -75,6 +76,8 @@ def gen_case(rng, dist):
     profile = rng.choice(["learn", "learn", "map", "mix"])
     ops = []
     def fv():
+        if rng.random() < 0.03:
+            return bits_of(rng.choice(WILD))
         return bits_of(rng.choice(VALS) if rng.random() < 0.7 else rng.random())
     def slot(bad=0.05):
         return rng.choice([-1, ns, 99]) if rng.random() < bad else rng.randrange(ns)
@@ -391,12 +394,24 @@ def nontrivial(case, impl):
 LOGMSG = re.compile(r"(/lg\w*/f/)\d+")
 LOGMAP = re.compile(r"1/f/\d+/\d+/1/(\d+)/(\d+)/\d+/\d+")
 
+MAPDUMP = re.compile(r"1/([ifT])/(\d+)/(\d+)/(\d)/(\d+)/(\d+)/(\d+)/(\d+)")
+
+def _nan(m):
+    f = [m.group(i) for i in range(2, 9)]
+    def n(x):
+        b = int(x)
+        return "NaN" if (b & 0x7f800000) == 0x7f800000 and (b & 0x7fffff) else x
+    return "1/%s/%s/%s/%s/%s/%s/%s/%s" % (m.group(1), n(f[0]), n(f[1]), f[2], n(f[3]), n(f[4]), n(f[5]), n(f[6]))
+
 def canon(case, line):
-    """log-scale values depend on libm's logf/expf: masked (checked numerically by spec_check)"""
+    """NaN control points: sign/payload of a generated NaN is hardware-specific, compared as 'NaN';
+    log-scale values depend on libm's logf/expf: masked (checked numerically by spec_check)"""
+    if "M=" in line:
+        line = MAPDUMP.sub(_nan, line)
     if "/lg" not in line and ":l" not in case:
         return line
     line = LOGMSG.sub(r"\1~", line)
-    return LOGMAP.sub(r"1/f/~/~/1/\1/\2/~/~", line)
+    return re.sub(r"1/f/[\dNa]+/[\dNa]+/1/([\dNa]+)/([\dNa]+)/[\dNa]+/[\dNa]+", r"1/f/~/~/1/\1/\2/~/~", line)
 
 def classify(case, impl, failure):
     return None
